@@ -27,11 +27,13 @@ def values():
         out.append((x, None, "f", False)); out.append((x, "f", "f", False))
     for s in ["hello", "a b", "x", " lead", "1", "3.5", "*", "a:b", "~!"]:
         out.append((s, None, "Z", True)); out.append((s, "Z", "Z", True))
-    for s in ["a\tb", "a\nb", "é", "\x7f", ""]:
+    for s in ["a\tb", "a\nb", "é", "\x7f", "", "abc\n", "\n", "abc\r", "abc\n\n"]:
         out.append((s, "Z", "Z", False))
+    for s in ["abc\n", "a\tb"]:
+        out.append((s, None, "Z", False))
     for c in ["x", "!", "~"]:
         out.append((c, "A", "A", True))
-    for c in ["xy", " ", "\t"]:
+    for c in ["xy", " ", "\t", "x\n", "\n"]:
         out.append((c, "A", "A", False))
     for j in [[1, 2], {"a": 1}, {"k": [1, {"z": None}], "s": "v w"}, [], [[]], ["a\"b"], ["x", 1.5]]:
         if isinstance(j, list) and (all(isinstance(x, int) for x in j) or all(isinstance(x, float) for x in j)):
@@ -48,7 +50,7 @@ def values():
         out.append((j, "J", "J", False)); out.append((j, None, "J", False))
     # booleans are not integers of a tag, nor elements of a numeric array; a float array holds finite values; an integer too large for a float
     out.append((True, None, "i", False)); out.append((False, "i", "i", False))
-    out.append(([True, False], None, "B", False)); out.append(([float("inf")], None, "B", False)); out.append(([1.5, float("nan")], "B", "B", False))
+    out.append(([True, False], None, "J", True)); out.append(([True, False], "B", "B", False)); out.append(([float("inf")], None, "B", False)); out.append(([1.5, float("nan")], "B", "B", False))
     out.append((10**400, "f", "f", False)); out.append((-10**400, "f", "f", False))
     out.append((2**70, "f", "f", True))
     # a string given for an H tag is hex text: an odd number of digits is not a byte array
